@@ -1,7 +1,7 @@
 (** Pinned statements of the C08 property theorems: compiled on every check, so a theorem cannot be
     weakened silently. *)
 From V Require Import Base.Util Gql.Ast Peg.Peg Gen.C07_grammar_gen C07.Builder C07.Model.
-From V Require Import C08.Model C08.Spec C08.SiteType Gen.C08_sites_gen C08.Sites C08.ProofsRender C08.ProofsEscape C08.Shape C08.ProofsShape C08.ProofsMerge C08.Proofs C08.Properties.
+From V Require Import C08.Model C08.Spec C08.SiteType Gen.C08_sites_gen C08.Sites C08.ProofsRender C08.ProofsEscape C08.Shape C08.ProofsShape C08.ProofsMerge C08.ImportsCost C08.Proofs C08.Properties.
 From V Require C03.Properties C07.Fuel C11.Properties C12.Properties C13.Properties.
 Local Open Scope N_scope.
 
@@ -58,7 +58,11 @@ Check (C08_check_then_generate_refuted :
 Check (C08_merge_unchecked_refuted :
   check_then_tree w_merge_schema w_merge_fields = Some ([], Some (C01.Model.Err C01.Model.EMergeFields)) /\
   check_then_tree w_merge_schema w_merge_trees = Some ([], Some (C01.Model.Err C01.Model.EMergeTrees))).
+Check (C08_imports_linear : forall st root_path root,
+  fst (resolve_imports_c st root_path root) = C13.Model.resolve_imports st root_path root /\
+  (snd (resolve_imports_c st root_path root) <= length st)%nat).
 
+Print Assumptions C08_imports_linear.
 Print Assumptions C08_merge_unchecked_refuted.
 Print Assumptions C08_render_total.
 Print Assumptions C08_skip_chars_total.
